@@ -79,6 +79,12 @@ func seeds() []seedFile {
 			bs, _ := p.Build()
 			add(fmt.Sprintf("vp8lgen-w%d", wdt), xref.Simple("VP8L", bs))
 		}
+		{ // predictor modes 14/15 (defined as mode 0 by the specification), deep 15-bit codes and long copies
+			p := &gen.VP8LProg{W: 23, H: 19, CacheBits: 4, RefPct: 20, CachePct: 10, LitSpread: 16, CodeStyle: "normal", CodeShape: "deep", LongCopies: true, Seed: 977,
+				Transforms: []gen.VP8LTransform{{Type: 0, Bits: 2, Mode1415: true}, {Type: 1, Bits: 3}}}
+			bs, _ := p.Build()
+			add("vp8lgen-mode1415-deep", xref.Simple("VP8L", bs))
+		}
 		meta := func(o *gen.Opts) {
 			o.ICC, o.ICCNil = []byte("ICCPROFILE!"), false
 			o.EXIF, o.EXIFNil = []byte("Exif\x00\x00II*\x00"), false
